@@ -27,7 +27,12 @@ Theorem C07_Inv_meaning : ∀ C, Inv C ↔
     (n_ty i ∈ [Buf; Not; BbIn] → size (n_fi i) ≤ 1) ∧
     (n_ty i = BbIn → fanout (c_g C) n = ∅) ∧
     (n_ty i = BbOut → size (fanout (c_g C) n) ≤ 1 ∧ ∀ m, m ∈ fanout (c_g C) n → ty (c_g C) m = Some Buf).
-Proof. intros C. unfold Inv, wired. by rewrite closed'_iff, map_Forall_lookup. Qed.
+Proof.
+  intros C. unfold Inv, wired. rewrite closed'_iff, map_Forall_lookup.
+  split; intros [Hc Hn]; (split; [done|]); intros n i Hi; specialize (Hn n i Hi).
+  - destruct Hn as (H1 & H2 & H3 & [H4 H5]%fanout_ok_spec). done.
+  - destruct Hn as (H1 & H2 & H3 & H4 & H5). repeat split; try done. apply fanout_ok_spec. done.
+Qed.
 Print Assumptions C07_Inv_meaning.
 
 (* ---------------------------------------------------------------- the invariant *)
